@@ -176,6 +176,11 @@ MUTANTS = [
      "        opd = set(other.get_demoted())\n        self.pixeldict[self.maxdepth].difference_update(opd)",
      "        opd = other.get_demoted()\n        opd &= self.pixeldict[self.maxdepth]\n"
      "        self.pixeldict[self.maxdepth].difference_update(opd)", "C08-R9"),
+    ("intersect returns early for an empty operand (seed C08c)",
+     "AegeanTools/regions.py",
+     "        opd = set(other.get_demoted())\n        self.pixeldict[self.maxdepth].intersection_update(opd)",
+     "        opd = set(other.get_demoted())\n        if len(opd) == 0:\n            return\n"
+     "        self.pixeldict[self.maxdepth].intersection_update(opd)", "C08-R3"),
 ]
 TWINS = [
     ("shift instead of floor division", "AegeanTools/regions.py",
@@ -186,6 +191,11 @@ TWINS = [
      "= set()\n",
      "        self.pixeldict[depth].update(set(pix))\n        self.demoted "
      "= set()\n"),
+    ("without returns early for an empty operand (identity)",
+     "AegeanTools/regions.py",
+     "        opd = set(other.get_demoted())\n        self.pixeldict[self.maxdepth].difference_update(opd)",
+     "        opd = set(other.get_demoted())\n        if not opd:\n            return\n"
+     "        self.pixeldict[self.maxdepth].difference_update(opd)"),
 ]
 
 
@@ -433,6 +443,50 @@ def _subst_maxdepth(e):
 
 
 # --------------------------------------------------------------------------
+def _emptiness(fnode, test, opname):
+    """If `test` only asks whether the operand of the set operation (name
+    `opname`, or other.get_demoted() itself) is empty, return (value of the
+    test for an empty operand, value for a non-empty one); else None."""
+    def is_operand(e):
+        if isinstance(e, ast.Name) and e.id == opname:
+            return True
+        return _depends_on_call(fnode, e, "other", ("get_demoted",)) and \
+            isinstance(e, (ast.Name, ast.Call))
+
+    def ev(e, empty):
+        if isinstance(e, ast.Constant) and isinstance(e.value, (int, bool)):
+            return e.value
+        if is_operand(e):
+            return not empty            # truthiness of the set
+        if isinstance(e, ast.Call) and norm(e.func) == "len" and \
+                len(e.args) == 1 and is_operand(e.args[0]):
+            return 0 if empty else 1
+        if isinstance(e, ast.UnaryOp) and isinstance(e.op, ast.Not):
+            return not ev(e.operand, empty)
+        if isinstance(e, ast.Compare) and len(e.ops) == 1:
+            l_, r_ = ev(e.left, empty), ev(e.comparators[0], empty)
+            # "non-empty" stands for every size >= 1: only comparisons with
+            # 0 / 1 thresholds that separate 0 from >= 1 are decided
+            op = type(e.ops[0])
+            table = {ast.Eq: l_ == r_, ast.NotEq: l_ != r_, ast.Lt: l_ < r_,
+                     ast.LtE: l_ <= r_, ast.Gt: l_ > r_, ast.GtE: l_ >= r_}
+            if op not in table:
+                raise ValueError
+            consts = [x for x in (e.left, e.comparators[0])
+                      if isinstance(x, ast.Constant)]
+            if len(consts) != 1 or consts[0].value not in (0, 1):
+                raise ValueError
+            if consts[0].value == 1 and op in (ast.Eq, ast.NotEq, ast.Gt,
+                                               ast.LtE):
+                raise ValueError      # distinguishes 1 from 2: not emptiness
+            return table[op]
+        raise ValueError
+    try:
+        return bool(ev(test, True)), bool(ev(test, False))
+    except (ValueError, TypeError):
+        return None
+
+
 def _helper_calls(ci, node):
     """[(call, helper FuncInfo, name of the helper parameter that receives
     `other`)] for self.<private method>(... other ...) calls inside node"""
@@ -554,6 +608,43 @@ def r3(ctx, ci):
         ctx.check("C08-R3", fi, "renorm-after-operate in %s" % m, ok_ren,
                   "a path from the set operation reaches the return without "
                   "self._renorm() (normal form / cache reset)", node=call)
+        # a normal return that skips the set operation is only allowed
+        # where the operation would be the identity: an EMPTY operand for
+        # difference / symmetric difference (never for intersection)
+        if opn:
+            bypass = g.path_avoiding(ENTRY, EXIT, set(opn))
+            explained = False
+            why = ""
+            if bypass:
+                opname = norm(call.args[0]) if call.args else ""
+                for k_, nd in enumerate(bypass[:-1]):
+                    if g.kind.get(nd) != "if":
+                        continue
+                    lab = g.g[nd][bypass[k_ + 1]].get("label")
+                    tv = _emptiness(fi.node, g.stmt[nd].test, opname)
+                    if tv is None:
+                        continue
+                    on_empty, on_full = tv
+                    taken = (lab == "T")
+                    if on_empty == taken and on_full != taken:
+                        explained = setop in ("difference_update",
+                                              "symmetric_difference_update")
+                        why = "taken when the operand is empty (`%s`)" % \
+                            norm(g.stmt[nd].test)
+                ctx.check("C08-R3", fi, "every normal return of %s applies "
+                          "the set operation" % m, explained,
+                          "the path %s returns without %s%s: %s" % (
+                              g.describe(bypass), setop,
+                              (", " + why) if why else "",
+                              "intersecting with an empty region must EMPTY "
+                              "self, not leave it unchanged"
+                              if setop == "intersection_update" else
+                              "the region is left unchanged although the "
+                              "operation is not the identity there"),
+                          node=call, path=g.describe(bypass))
+            else:
+                ctx.ob("C08-R3", fi, "every normal return of %s applies the "
+                       "set operation" % m, True, {}, call)
         # equal-depth guard: an If whose test compares self.maxdepth with
         # other.maxdepth and whose failing branch raises, dominating the op
         guard_ok = False
